@@ -313,7 +313,15 @@ def run(ctx):
     for bb, tm in body.terms():
         if tm["k"] == "switch":
             d = norm(T.at_term(tm["discr"], bb))
-            if d[0] == "discr" and d[1][0] == "field" and d[1][2] == "dest":
+            def _is_dest(x, depth=0):
+                x = norm(x)
+                while x[0] in ("ref", "deref"):
+                    x = norm(x[1])
+                if x[0] == "phi" and depth < 3:
+                    ops = [y for y in x[1] if not (norm(y)[0] == "payload" and norm(norm(y)[2])[0] == "agg" and norm(norm(y)[2])[2] == "None")]
+                    return bool(ops) and all(_is_dest(y, depth + 1) for y in ops)
+                return x[0] == "field" and x[2] == "dest"
+            if d[0] == "discr" and _is_dest(d[1]):
                 dsw = bb
     if dsw is None:
         ctx.bad("R3", "dest-switch-not-found", ctx.where(body), "cannot find the switch on the route's handler")
@@ -345,6 +353,11 @@ def run(ctx):
             if tm["k"] == "switch":
                 d = norm(T.at_term(tm["discr"], bb))
                 if d[0] == "discr" and "Option<usize>" in _ty_of_discr(body, tm):
+                    none_edges.extend(discr_edges(cfg, bb, 0))
+                elif d[0] == "discr" and _ty_of_discr(body, tm).startswith("std::option::Option<") and not any(bb in l for l in loops) and \
+                        any(y[0] == "call" and str(y[1]).endswith("::next") for y in subterms(d)) and \
+                        any(norm(y)[0] == "agg" and norm(y)[2] == "None" for y in subterms(d)):
+                    # the best-so-far kept as one Option<(route, suffix)>: None after the loops = nothing matched
                     none_edges.extend(discr_edges(cfg, bb, 0))
         ctx.check(bool(nr) and all(edge_dominated(cfg, none_edges, bb) for bb in nr), "R3", "no-route->NoRouteConfigured", ctx.where(body), "")
         # R4: the server is the selected route's
